@@ -5,7 +5,7 @@ from typing import cast
 
 from minimalloc import Buffer, Problem  # pyright: ignore[reportMissingTypeStubs]
 from xdsl.context import Context
-from xdsl.dialects import arith, builtin, func, llvm, memref
+from xdsl.dialects import arith, builtin, func, llvm, memref, scf
 from xdsl.dialects.memref import DeallocOp
 from xdsl.ir import Operation, OpResult, Sequence, SSAValue
 from xdsl.parser import IndexType, IntegerAttr, StringAttr
@@ -277,13 +277,28 @@ class MiniMallocate(RewritePattern):
 
                 # add uses to the use list, views and casts of the buffer keep it alive as well
                 values_to_follow: list[SSAValue] = [op.results[0]]
+                followed: set[SSAValue] = set()
                 while values_to_follow:
                     value = values_to_follow.pop()
+                    if value in followed:
+                        continue
+                    followed.add(value)
                     for use in value.uses:
                         use_op = get_top_level_op(use.operation)
                         uses[use_op].append(buffer)
                         if isinstance(use.operation, VIEW_LIKE_OPS):
                             values_to_follow.extend(use.operation.results)
+                        # a buffer carried through a loop lives on in the iteration argument
+                        # and in the result of the loop
+                        elif isinstance(use.operation, scf.ForOp) and use.index >= 3:
+                            values_to_follow.append(use.operation.body.block.args[use.index - 2])
+                            values_to_follow.append(use.operation.results[use.index - 3])
+                        elif isinstance(use.operation, scf.YieldOp):
+                            parent = use.operation.parent_op()
+                            if isinstance(parent, scf.ForOp | scf.IfOp):
+                                values_to_follow.append(parent.results[use.index])
+                            if isinstance(parent, scf.ForOp):
+                                values_to_follow.append(parent.body.block.args[use.index + 1])
 
             if op in uses:
                 # udpate lifetime of buffer
